@@ -14,6 +14,11 @@ def selectIdx (N skip : Nat) (limit : Option Nat) (ff rank W : Nat) : List Nat :
   let start := skip + ff + rank
   (List.range lim).filter (fun i => decide (start ≤ i) && (i - start) % W == 0)
 
+/-- lines that fail to parse keep their global index but are dropped AFTER the rank stride (`filter_map` comes
+after `step_by`): the items a rank delivers are its selected indices without the invalid ones -/
+def selectValid (N skip : Nat) (limit : Option Nat) (ff rank W : Nat) (invalid : List Nat) : List Nat :=
+  (selectIdx N skip limit ff rank W).filter (fun i => !invalid.contains i)
+
 /-- `min_items` -/
 def minItems (N skip : Nat) (limit : Option Nat) : Nat :=
   (match limit with | none => N | some l => min N l) - skip
